@@ -133,7 +133,10 @@ async fn read_frame<R: tokio::io::AsyncRead + Unpin>(r: &mut R) -> Option<Value>
     if r.read_exact(&mut body).await.is_err() {
         return None;
     }
-    serde_json::from_slice(&body).ok()
+    match serde_json::from_slice(&body) {
+        Ok(v) => Some(v),
+        Err(e) => Some(json!({"method": "verif/unparsable", "params": {"error": e.to_string(), "body": String::from_utf8_lossy(&body)}})),
+    }
 }
 
 fn uri_of(dir: &str, file: &str) -> String {
@@ -214,14 +217,19 @@ pub fn session_item(item: &Value) -> Value {
     let (mut cli_r, cli_w0) = tokio::io::split(client_side);
     let cli_w = Arc::new(tokio::sync::Mutex::new(cli_w0));
 
+    let sh_srv = sh.clone();
     let server = rt.spawn(async move {
         let (mainloop, _) = async_lsp::MainLoop::new_server(|client| {
             ServiceBuilder::new()
                 .layer(LifecycleLayer::default())
-                .layer(ConcurrencyLayer::default())
+                // mirrors crates/lsp/src/main.rs (the binary itself is exercised by the stdio bursts of C08)
+                .layer(ConcurrencyLayer::new(std::num::NonZeroUsize::new(4096).unwrap()))
                 .service(lsp::server::Server::new_router(client))
         });
-        let _ = mainloop.run_buffered(srv_r.compat(), srv_w.compat_write()).await;
+        let res = mainloop.run_buffered(srv_r.compat(), srv_w.compat_write()).await;
+        if let Err(e) = res {
+            sh_srv.m.lock().unwrap().events.push(json!({"ev": "MainLoopEnded", "error": format!("{e:?}")}));
+        }
     });
 
     // reader: every incoming frame is projected and appended to the event log
@@ -259,6 +267,7 @@ pub fn session_item(item: &Value) -> Value {
             }
             sh_r.cv.notify_all();
         }
+        sh_r.m.lock().unwrap().events.push(json!({"ev": "ReaderStopped"}));
     });
 
     let mut outcome = "Ok".to_string();
